@@ -97,7 +97,7 @@ func main() {
 	r.Supervise()
 	r.Rule("scenarios: log (follower tails the leader), snapshot (follower starts after the leader compacted its log), writes-during-recovery, worker-restart, engine-restart, slow-apply (follower apply stalled so that the worker's proposal times out while in flight), table create/delete; " +
 		"leader message-size limit in {300 B, 1 KiB, 4 MiB}, follower MaxInMemLogSize in {0, 4000, 64 KiB, 1 MiB}, leader log cache on/off. " +
-		"Non-trivial: scenario with >=30 usable samples at >=10 distinct leader indices and >=5 non-idempotent commands between first and last sample; distinct by (scenario, seed)")
+		"Non-trivial: a usable follower sample at a leader index > 0 with non-empty content (distinct by scenario, table, leader index), and every scenario with >=30 usable samples at >=10 distinct leader indices and >=5 non-idempotent commands; the evidence lists both counts per scenario")
 	r.Assume("every leader write is issued by the harness; a leader write that ends in an error makes the run inconclusive from there",
 		"an operator-requested table reset is never issued", "convergence is checked as bounded progress: 60 s after the leader stops, re-checked once at 180 s")
 	if r.Replay != "" {
@@ -129,7 +129,7 @@ func main() {
 		}
 		r.Extra("race_reports_regatta", len(rep.Regatta))
 	}
-	r.FloorNontrivial(int64(r.Pick(1, 8)))
+	r.FloorNontrivial(int64(r.Pick(60, 600)))
 	r.FloorCount("usable_samples", int64(r.Pick(300, 4000)))
 	r.FloorCount("leader_writes", int64(r.Pick(500, 6000)))
 	r.FloorCount("scenarios_converged", int64(r.Pick(5, 40)))
@@ -607,6 +607,11 @@ func runScenario(r *ev.Run, id caseID) {
 		}
 		distinctLI[s.li] = true
 		r.Count("usable_samples", 1)
+		if s.li > 0 && len(s.dump.M) > 0 {
+			// a sample taken at a leader index at which the table is non-empty (non-idempotent
+			// commands have been replicated up to it): one distinct non-trivial observation
+			r.Nontrivial(fmt.Sprint(id.Scenario, id.Seed, s.table, s.li))
+		}
 	}
 	r.Count("unusable_samples(index moved during the read)", unusable.Load())
 	if !ok {
